@@ -20,12 +20,9 @@ Definition op_guard (g : geom) (op : lop) : bool :=
   | OLine row text align clear => row_in g row && asciib text && align_ok align
   | OMessage top bottom ta ba clear =>
       opt_asciib top && opt_asciib bottom && align_ok ta && align_ok ba
-      && (is_none bottom || (2 <=? g_rows g))                       (* F-C17-message-one-row *)
   | OClear => true
   | OProgress row value maxv width style label =>
       row_in g row && style_ok style && asciib label
-      && (0 <? maxv)                                                (* F-C17-progress-max *)
-      && width_in width                                             (* F-C17-progress-width *)
       && (hfilled value maxv (hwidth (g_cols g) width) =? dfilled value maxv (dwidth (g_cols g) width))
            (* the statement allows the two bars to differ by one cell otherwise *)
   | ODisplay _ | OBacklight _ => true
@@ -46,13 +43,14 @@ Definition ev_in_rows01 (cols : Z) (e : dev_ev) : Prop :=
 Definition text_ev (e : dev_ev) : Prop :=
   match e with EvSC _ _ | EvW _ _ _ | EvCLR => True | _ => False end.
 
-(* rows a call may write cells of (message: row 0 for top, row 1 for bottom) *)
+(* rows a call may write cells of (message: row 0 for top, row 1 for bottom when the
+   display has a second row - on a one-row display bottom is skipped by both sides) *)
 Definition touched (g : geom) (op : lop) : list Z :=
   match op with
   | OWrite _ row _ _ _ => [row]
   | OLine row _ _ _ => [row]
   | OMessage top bottom _ _ _ =>
-      (if is_none top then [] else [0]) ++ (if is_none bottom then [] else [1])
+      (if is_none top then [] else [0]) ++ (if is_none bottom || (g_rows g <=? 1) then [] else [1])
   | OClear => zseq (g_rows g)
   | OProgress row _ _ _ _ _ => [row]
   | ODisplay _ | OBacklight _ | OBrightness _ | OGlyph _ _ => []
@@ -66,7 +64,7 @@ Definition geo_guard (g : geom) (op : lop) : bool :=
   match op with
   | OWrite col row _ _ align => row_in g row && col_in g col && align_ok align
   | OLine row _ align _ => row_in g row && align_ok align
-  | OMessage _ bottom ta ba _ => align_ok ta && align_ok ba && (is_none bottom || (2 <=? g_rows g))
+  | OMessage _ _ ta ba _ => align_ok ta && align_ok ba
   | OProgress row _ _ _ style _ => row_in g row && style_ok style
   | OClear | ODisplay _ | OBacklight _ | OBrightness _ | OGlyph _ _ => true
   end.
